@@ -54,12 +54,21 @@ inductive ObR
   | raisedOther (what : String)
   deriving DecidableEq, Repr
 
+/-- how the endpoint's `connect()` reports its outcome: `none` = later (a Deferred that is still pending when
+    `connect()` returns — every real TCP endpoint on the happy path), `ok` / `fail` = the Deferred has ALREADY
+    fired when `connect()` returns, so `cbConnect` / `ebConnect` run inside `tryConnect()` -/
+inductive Sync
+  | none | ok | fail
+  deriving DecidableEq, Repr
+
 inductive EvR
   | make (id : Int) (expect : Bool) (hook : Option Hook)
   | flat (e : Ev)
   /-- environment switch: the endpoint IGNORES `cancel()` of a connection attempt and connects from
       inside the canceller (the pathological endpoint of `test_close_connecting_succeed`) -/
   | stubborn (on : Bool)
+  /-- environment switch: from now on the endpoint answers `connect()` synchronously (or not) -/
+  | syncMode (m : Sync)
   deriving DecidableEq, Repr
 
 structure StR where
@@ -67,9 +76,14 @@ structure StR where
   /-- callbacks waiting on unfired Deferreds, by serial -/
   hooks : List (Nat × Hook)
   stubborn : Bool := false
+  sync : Sync := .none
   deriving DecidableEq, Repr
 
-def StR.init (host port : Nat) : StR := { core := St.init host port, hooks := [], stubborn := false }
+def StR.init (host port : Nat) : StR := { core := St.init host port, hooks := [], stubborn := false, sync := .none }
+
+/-- `cbConnect`: the connection is up -/
+def established (c : St) : St :=
+  { c with failures := 0, connector := .none, proto := some c.nconn, nconn := c.nconn + 1, losing := false, rbuf := [] }
 
 inductive Task
   | fire (k : Nat) (id : Int) (r : Res)
@@ -82,6 +96,12 @@ inductive Task
   | closeLoop
   | sendLoop (c : Nat) (snap : List Nat)
   | frames (c : Nat) (fs : List Bytes) (f : Fed)
+  /-- `makeRequest` with an endpoint that answers synchronously -/
+  | makeS (id : Int) (ex : Bool) (h : Option Hook)
+  /-- `_connectionLost` with an endpoint that answers synchronously -/
+  | lost
+  /-- `tryConnect()` -/
+  | dial
 
 def obs (l : List Ob) : List ObR := l.map .ob
 
@@ -114,7 +134,7 @@ def exec (cfg : Cfg) : Nat → StR → Task → StR × List ObR
     | .act .close => exec cfg n s .close
     | .act .disconnect => let r := step cfg c .disconnect; ({ s with core := r.1 }, obs r.2)
     | .act (.cancel id) => exec cfg n s (.cancel id)
-    | .act (.make id ex) => exec cfg n s (.make id ex none)
+    | .act (.make id ex) => if s.sync = .none then exec cfg n s (.make id ex none) else exec cfg n s (.makeS id ex none)
     | .make id ex h =>
       if c.reqs.any (fun r => r.id == id) then (s, [.ob (.raiseDup id)])
       else
@@ -207,8 +227,12 @@ def exec (cfg : Cfg) : Nat → StR → Task → StR × List ObR
     | .frames conn (b :: bs) f =>
       match corrId b with
       | none =>
-        let l := lostStep c
-        ({ s with core := l.1 }, .ob .raiseUnderflow :: obs l.2)
+        if s.sync = .none then
+          let l := lostStep c
+          ({ s with core := l.1 }, .ob .raiseUnderflow :: obs l.2)
+        else
+          let r := exec cfg n s .lost
+          (r.1, .ob .raiseUnderflow :: r.2)
       | some id =>
         let c1 := { c with reqs := c.reqs.filter (fun r => r.id != id) }
         let r1 : StR × List ObR :=
@@ -218,10 +242,46 @@ def exec (cfg : Cfg) : Nat → StR → Task → StR × List ObR
           else ({ s with core := c1 }, [.ob (.unexpected id)])
         let r2 := exec cfg n r1.1 (.frames conn bs f)
         (r2.1, r1.2 ++ r2.2)
+    | .makeS id ex h =>
+      -- with a synchronous endpoint `_connect()` has connected (or failed) when it returns
+      if s.sync != .none && !c.closed && c.proto.isNone && c.connector == .none && !c.reqs.any (fun r => r.id == id) then
+        match s.sync with
+        | .ok =>
+          -- `cbConnect` ran inside `_connect()`: the queued request is written by `_sendQueued` exactly as
+          -- `makeRequest` on a connected client writes it (an idle client has an empty table)
+          let r := exec cfg n { s with core := established c } (.make id ex h)
+          (r.1, .ob (.connect c.host c.port) :: r.2)
+        | _ =>
+          -- `ebConnect` ran inside `_connect()`: the first failure, the back-off timer is armed
+          let k := c.nmake
+          let reg : List (Nat × Hook) := match h with | some h => (k, h) :: s.hooks | none => s.hooks
+          let rq : Req := { serial := k, id, expect := ex, sent := false, cancelled := false }
+          ({ s with core := { c with nmake := k + 1, reqs := c.reqs ++ [rq], failures := 1,
+                                     connector := .backoff (c.now + cfg.policy 1) }, hooks := reg },
+           [.ob (.connect c.host c.port), .ob (.setTimer (cfg.policy 1)), .made k id])
+      else exec cfg n s (.make id ex h)
+    | .lost =>
+      let reqs' := (c.reqs.filter (fun r => !r.cancelled)).map (fun r => { r with sent := false })
+      let c1 := { c with proto := none, losing := false, rbuf := [], reqs := reqs' }
+      if c.closed then ({ s with core := c1 }, [.ob .down])
+      else if reqs'.isEmpty then ({ s with core := c1 }, [])
+      else exec cfg n { s with core := { c1 with failures := 0 } } .dial
+    | .dial =>
+      -- unreachable when closed: `close()` cancels the timer and `_connectionLost` does not reconnect
+      if c.closed then (s, [.ob .badOp])
+      else
+        match s.sync with
+        | .none => ({ s with core := { c with connector := .attempt } }, [.ob (.connect c.host c.port)])
+        | .fail =>
+          ({ s with core := { c with failures := c.failures + 1, connector := .backoff (c.now + cfg.policy (c.failures + 1)) } },
+           [.ob (.connect c.host c.port), .ob (.setTimer (cfg.policy (c.failures + 1)))])
+        | .ok =>
+          let r := exec cfg n { s with core := established c } (.sendLoop c.nconn (c.reqs.map (·.serial)))
+          (r.1, .ob (.connect c.host c.port) :: r.2)
 
 def stepRWith (cfg : Cfg) (fuel : Nat) (s : StR) : EvR → StR × List ObR
-  | .make id ex h => exec cfg fuel s (.make id ex h)
-  | .flat (.make id ex) => exec cfg fuel s (.make id ex none)
+  | .make id ex h => if s.sync = .none then exec cfg fuel s (.make id ex h) else exec cfg fuel s (.makeS id ex h)
+  | .flat (.make id ex) => if s.sync = .none then exec cfg fuel s (.make id ex none) else exec cfg fuel s (.makeS id ex none)
   | .flat (.cancel id) => exec cfg fuel s (.cancel id)
   | .flat .close => exec cfg fuel s .close
   | .flat .connOk =>
@@ -242,8 +302,22 @@ def stepRWith (cfg : Cfg) (fuel : Nat) (s : StR) : EvR → StR × List ObR
       else
         let f := feed c.rbuf chunk
         exec cfg fuel s (.frames conn f.frames f)
+  | .flat .lost =>
+    if s.sync = .none then let r := step cfg s.core .lost; ({ s with core := r.1 }, obs r.2)
+    else match s.core.proto with
+      | none => (s, [.ob .badOp])
+      | some _ => exec cfg fuel s .lost
+  | .flat (.advance dt) =>
+    if s.sync = .none then let r := step cfg s.core (.advance dt); ({ s with core := r.1 }, obs r.2)
+    else if dt < 0 then (s, [.ob .badOp])
+    else
+      let c1 := { s.core with now := s.core.now + dt }
+      match s.core.connector with
+      | .backoff due => if due ≤ c1.now then exec cfg fuel { s with core := c1 } .dial else ({ s with core := c1 }, [])
+      | _ => ({ s with core := c1 }, [])
   | .flat e => let r := step cfg s.core e; ({ s with core := r.1 }, obs r.2)
   | .stubborn on => ({ s with stubborn := on }, [])
+  | .syncMode m => ({ s with sync := m }, [])
 
 /-- the fuel the driver runs with -/
 def fuel : Nat := 100000
